@@ -33,7 +33,7 @@ import verif as V
 COMPS = [
     V.Component("dhcpterm", kind="gotest",
                 monitors=["addr-not-returned", "nat-residue", "qos-residue", "cache-residue", "index-residue",
-                          "missing-stop", "double-stop", "stop-unstarted", "second-end-effect", "view-skew"]),
+                          "missing-stop", "double-stop", "stop-unstarted", "second-end-effect", "view-skew", "obs-roundtrip"]),
 ]
 SPEC = ["Bng.Spec.C16Dhcp"]
 
